@@ -40,7 +40,8 @@ def hist_of(line):
 def emit_projects(tier, seed, sc):
     """Project cases exactly as the pipeline family emits them (TLC on PipelineMC)."""
     thorough = tier == "thorough"
-    plan = [("Pipeline_sim.cfg", 300 if thorough else 40), ("Pipeline_c06sim.cfg", 300 if thorough else 40)]
+    plan = [("Pipeline_sim.cfg", 300 if thorough else 40), ("Pipeline_c06sim.cfg", 300 if thorough else 40),
+            ("Pipeline_c19sim.cfg", 300 if thorough else 40), ("Pipeline_c07sim.cfg", 300 if thorough else 40)]
 
     def emit(item):
         cfgname, n = item
@@ -50,7 +51,7 @@ def emit_projects(tier, seed, sc):
             raise c.Trouble("TLC emission run %s failed:\n%s" % (cfgname, r.out[-2000:]))
         return [l for l in open(out) if l.startswith('"CASE ')]
 
-    with concurrent.futures.ThreadPoolExecutor(max_workers=2) as ex:
+    with concurrent.futures.ThreadPoolExecutor(max_workers=4) as ex:
         parts = list(ex.map(emit, plan))
     # interleave the two input sets so that both kinds of project (several controllers / imported model types) are used
     lines = []
@@ -164,7 +165,7 @@ def run(tier):
     c.tlc_model_ok(r, "Session_model.cfg")
     cov["states"], cov["transitions"] = r.distinct, r.generated
     guards = {}
-    for cfg, inv in (("Session_nogi.cfg", "C19_GraphStable"), ("Session_noct.cfg", "C19_FlatStable"), ("Session_nosm.cfg", "C19_SerialsStable")):
+    for cfg, inv in (("Session_nogi.cfg", "C19_GraphStable"), ("Session_nosf.cfg", "C19_GraphStable"), ("Session_noct.cfg", "C19_FlatStable"), ("Session_nosm.cfg", "C19_SerialsStable")):
         g = c.tlc("SessionMC", cfg, workers=2, timeout=600)
         if inv not in g.violated:
             raise c.Trouble("%s was expected to violate %s (vacuity guard)\n%s" % (cfg, inv, g.out[-1500:]))
